@@ -5,6 +5,7 @@ import (
 	"encoding/json"
 	"fmt"
 	xast "github.com/cedar-policy/cedar-go/x/exp/ast"
+	"reflect"
 	"runtime"
 	"sort"
 	"strings"
@@ -38,7 +39,11 @@ func snapshot(ps *cedar.PolicySet, em types.EntityMap, req cedar.Request, vals [
 	sort.Strings(ids)
 	for _, id := range ids {
 		sb.WriteString(policyToSx(id, (*xastPolicy)(ps.Get(cedar.PolicyID(id)).AST())).String())
+		// and structurally, every slice up to its capacity (a write into a caller's spare capacity is a mutation too)
+		sb.WriteString(rawDumpCap(reflect.ValueOf(ps.Get(cedar.PolicyID(id)).AST())))
 	}
+	sb.WriteString(rawDumpCap(reflect.ValueOf(em)))
+	sb.WriteString(rawDumpCap(reflect.ValueOf(req)))
 	return sb.String()
 }
 
